@@ -28,16 +28,42 @@ def dump_mir(scratch):
 
 
 def run_obligations(scratch, mir_path, src_root, obligations, timeout):
+    """Runs the obligations in up to VERIF_M_JOBS runner processes (each parses the MIR dump itself); results are
+    returned in the order of `obligations`."""
+    jobs = max(1, min(int(os.environ.get("VERIF_M_JOBS", "4")), len(obligations) // 2 or 1))
+    if jobs == 1:
+        return _run_obligations_one(scratch, mir_path, src_root, obligations, timeout, "")
+    groups = [obligations[i::jobs] for i in range(jobs)]
+    import threading
+    outs = [None] * jobs
+
+    def work(i):
+        outs[i] = _run_obligations_one(scratch, mir_path, src_root, groups[i], timeout, "_%d" % i)
+    ths = [threading.Thread(target=work, args=(i,)) for i in range(jobs)]
+    t0 = time.time()
+    for t in ths:
+        t.start()
+    for t in ths:
+        t.join()
+    by_name = {}
+    for o in outs:
+        for r in (o[0] if o else []):
+            by_name[r["name"]] = r
+    res = [by_name.get(o["name"], {"name": o["name"], "status": "inconclusive", "detail": "runner produced no result"}) for o in obligations]
+    return res, time.time() - t0
+
+
+def _run_obligations_one(scratch, mir_path, src_root, obligations, timeout, tag):
     """obligations: list of dicts {name, module, func, kwargs}. Runs mir2smt/runner.py under python3-vt.
     Returns list of result dicts."""
-    spec = os.path.join(scratch, "ob_spec.json")
-    outp = os.path.join(scratch, "ob_out.json")
+    spec = os.path.join(scratch, "ob_spec%s.json" % tag)
+    outp = os.path.join(scratch, "ob_out%s.json" % tag)
     with open(spec, "w") as fh:
         json.dump({"mir": mir_path, "src_root": src_root, "obligations": obligations, "out": outp,
                    "smt_dir": os.path.join(scratch, "smt")}, fh)
     rc, out, wall = common.run(["python3-vt", os.path.join(common.VERIF, "mir2smt", "runner.py"), spec],
                                cwd=common.VERIF, timeout=timeout, mem_gb=24,
-                               logfile=os.path.join(scratch, "mir_runner.log"))
+                               logfile=os.path.join(scratch, "mir_runner%s.log" % tag))
     if not os.path.exists(outp):
         return [{"name": o["name"], "status": "inconclusive", "detail": "runner failed rc=%s: %s" % (rc, out[-600:])}
                 for o in obligations], wall
@@ -60,14 +86,20 @@ def _wrap_queries(files):
 
 
 def cross_check(scratch, results, budget_s=240):
-    """Re-ask every deciding query (written by the runner as smt2 files) to z3 4.8.12 and cvc5.
-    Marks results 'inconclusive' on disagreement or solver error."""
+    """Re-ask every deciding query (written by the runner as smt2 files) to z3 4.8.12 and cvc5 (4 obligations at a time).
+    Marks results 'inconclusive' on disagreement or solver error; a solver that does not finish inside its share of the
+    budget is recorded as such (the in-process z3 5.1 verdict stands, the evidence says what was re-checked)."""
+    import threading
+    from concurrent.futures import ThreadPoolExecutor
     t_end = time.time() + budget_s
     summary = {"z3_4_8_12": 0, "cvc5": 0, "skipped": 0, "disagree": 0}
-    for r in results:
+    lock = threading.Lock()
+    per_solver_cap = max(20, min(90, budget_s // 2))
+
+    def one(r):
         files = r.get("smt_files") or []
         if not files:
-            continue
+            return
         expected = r.get("smt_expected") or []
         batch = os.path.join(scratch, "xc_%s.smt2" % re.sub(r"\W", "_", r["name"]))
         with open(batch, "w") as fh:
@@ -77,14 +109,16 @@ def cross_check(scratch, results, budget_s=240):
                             ("cvc5", ["cvc5", "--lang", "smt2", "--incremental", batch])):
             left = t_end - time.time()
             if left < 5:
-                summary["skipped"] += len(files)
+                with lock:
+                    summary["skipped"] += len(files)
                 r["cross"][solver] = "skipped (budget)"
                 continue
-            rc, out, wall = common.run(cmd, timeout=min(left, 180), mem_gb=12)
+            rc, out, wall = common.run(cmd, timeout=min(left, per_solver_cap), mem_gb=12)
             answers = [l.strip() for l in out.splitlines() if l.strip() in ("sat", "unsat", "unknown")]
             if rc == -9:
                 r["cross"][solver] = "timeout after %d answers" % len(answers)
-                summary["skipped"] += len(files) - len(answers)
+                with lock:
+                    summary["skipped"] += len(files) - len(answers)
             elif "(error" in out:
                 r["cross"][solver] = "error: " + out[:200]
                 if r["status"] == "holds":
@@ -92,12 +126,16 @@ def cross_check(scratch, results, budget_s=240):
                     r["detail"] = "%s reported an error on the exported queries" % solver
                 continue
             bad = [i for i, a in enumerate(answers) if i < len(expected) and a != "unknown" and a != expected[i]]
-            summary[solver] += len(answers)
+            with lock:
+                summary[solver] += len(answers)
             if bad:
-                summary["disagree"] += len(bad)
+                with lock:
+                    summary["disagree"] += len(bad)
                 r["cross"][solver] = "DISAGREE on queries %s" % bad[:5]
                 r["status"] = "inconclusive"
                 r["detail"] = "solver disagreement (%s) on %d queries" % (solver, len(bad))
             elif solver not in r["cross"]:
                 r["cross"][solver] = "agree on %d/%d" % (len(answers), len(files))
+    with ThreadPoolExecutor(max_workers=4) as pool:
+        list(pool.map(one, results))
     return summary
